@@ -217,9 +217,10 @@ Section Chain.
       assert (Hnone' : min_above vt1 k T = None).
       { apply min_above_none. intros x Hx _. eapply vt1_le; eauto. }
       rewrite Hnone'.
-      destruct present eqn:P.
+      unfold vt1, present in Hr1, Hnone.
+      destruct (existsb (is_row k T) vt) eqn:P.
       + (* updated in place: end is the old row's end, which chain_at says is None *)
-        unfold vt1 in Hr1. rewrite P in Hr1. apply in_map_iff in Hr1 as [r0 [E0 Hr0]].
+        apply in_map_iff in Hr1 as [r0 [E0 Hr0]].
         destruct (is_row k T r0) eqn:Er.
         * apply is_row_spec in Er as [E1 E2]. subst r. simpl.
           rewrite (CH r0 Hr0 E1), E1, E2. apply min_above_none. intros x Hx _. apply LE; exact Hx.
@@ -281,9 +282,10 @@ Proof.
     - rewrite in_app_iff. simpl. split; [|auto]. intros [H|[<-|[]]]; [exact H | simpl in Hk; congruence]. }
   destruct validity; [|exact H1].
   rewrite <- H1. unfold close_pred. rewrite in_map_iff. split.
-  - intros [r0 [E Hr0]]. destruct (same_key k r0) eqn:Ek; simpl in E.
-    + apply same_key_eq in Ek.
-      destruct (sql_eq (Some (vtx r0)) (max_below vt1 k T)); subst r; simpl in Hk; congruence.
+  - intros [r0 [E Hr0]].
+    destruct (same_key k r0 && sql_eq (Some (vtx r0)) (max_below vt1 k T)) eqn:C.
+    + apply andb_true_iff in C as [Ek _]. apply same_key_eq in Ek. subst r.
+      unfold set_end in Hk. simpl in Hk. congruence.
     + subst r. exact Hr0.
   - intro H. exists r. split; [|exact H].
     destruct (same_key k r) eqn:Ek; [apply same_key_eq in Ek; congruence | reflexivity].
